@@ -365,7 +365,7 @@ def stepMatch (mlTok lsTok : String) (obs : List String) : List Msg :=
 
 /-- the API's alert filter must mean what `Matchers.Matches` means (C16: "routes, silences, inhibition rules and
     API filters all use this same meaning") -/
-def stepApiMatch (mlTok lsTok : String) (obs : List String) : List Msg :=
+def stepApiMatch (mlTok lsTok : String) (obs : List String) (sil : Bool := false) : List Msg :=
   match parseML mlTok, obs with
   | some ms, [api, anch] =>
     let ls := parseLS lsTok
@@ -376,8 +376,9 @@ def stepApiMatch (mlTok lsTok : String) (obs : List String) : List Msg :=
     let model := matchesAll fm ms ls
     if api = "E" then [.tag "apimatch:filter-refused"] else
     (if decide (api = "1") = model then [] else
-      [Msg.propfail "matches_spec" "api-filter"
-        s!"GET /api/v2/alerts?filter={mlTok} on an alert with labels {lsTok}: the API {if api = "1" then "lists" else "hides"} it, Matchers.Matches (spec) says {model}"])
+      [Msg.propfail "matches_spec" (if sil then "api-silence" else "api-filter")
+        (if sil then s!"POST /api/v2/silences with matchers {mlTok} (isEqual left out where it is the default): the stored silence {if api = "1" then "mutes" else "does not mute"} labels {lsTok}, Matchers.Matches (spec) says {model}"
+         else s!"GET /api/v2/alerts?filter={mlTok} on an alert with labels {lsTok}: the API {if api = "1" then "lists" else "hides"} it, Matchers.Matches (spec) says {model}")])
     ++ [.tag (if model then "apimatch:true" else "apimatch:false")]
     ++ (if ms.any (fun m => m.op.isRegex ∧ hasCp (ls.get m.name) 10) then [.tag "apimatch:value-newline"] else [])
   | _, _ => [.diff "parse" "?" mlTok]
@@ -411,6 +412,7 @@ def step (_ : Unit) (op obs : List String) : Unit × List Msg :=
   | ["match", ml, ls] => stepMatch ml ls obs
   | ["mset", set, ls] => stepMset set ls obs
   | ["apimatch", ml, ls] => stepApiMatch ml ls obs
+  | ["apisil", ml, ls] => stepApiMatch ml ls obs true
   | _ => [.diff "parse" "?" (" ".intercalate op)])
 
 def engine : Engine Unit where
